@@ -49,6 +49,8 @@ def run(rng, tier, res=None):
     for case in range(ncases):
         K = rng.choice([1, 2, 2, 3, 3, 4, 5, 6, 6, 17, 26, 40])
         n = rng.randint(max(1, K), max(30, 2 * K))
+        if case % 25 == 7 and K <= 4:
+            n = rng.choice([300, 600, 1000])     # hundreds of samples per (true, predicted) cell
         labels = [rng.randrange(K) for _ in range(n)]
         all_present = rng.random() < 0.8
         if all_present:
@@ -196,6 +198,78 @@ def run(rng, tier, res=None):
             line = f"norm {n} {ints(fb(v) for v in col)}"
             lines.append(line); obs.append(("TOL", [out[i][j] for i in range(n)])); metas.append({"column": col})
             res.add_case(line, nontrivial=True); res.hit("normalize_column")
+    # ---------- the GENERATED counting parts (Gen/MeasImp.lean + Model/PyMeas.lean's reading of numpy) against the real functions ----------
+    glines, gobs, gmetas = [], [], []
+
+    def observe(fn, L, P):
+        try:
+            with np.errstate(all="ignore"):
+                r = fn(np.array(L, dtype=np.int64), np.array(P, dtype=np.int64))
+            return r
+        except Exception:
+            return None
+    for case in range((300 * BOOST) if tier == "quick" else 4000):
+        K = rng.choice([1, 2, 3, 3, 4, 5, 7])
+        nl = rng.choice([0, 1, 2, 3, 5, 8, 12, 20]) if rng.random() < 0.3 else rng.randint(K, 3 * K + 4)
+        kind = rng.choice(["dom", "dom", "missing", "short", "long", "neg", "beyond", "offset"])
+        L = [rng.randrange(K) for _ in range(nl)]
+        if kind in ("dom", "short", "long", "beyond") and nl >= K:
+            for c_, p_ in enumerate(rng.sample(range(nl), K)):
+                L[p_] = c_
+        np_ = nl
+        if kind == "short":
+            np_ = max(0, nl - rng.randint(1, 2))
+        elif kind == "long":
+            np_ = nl + rng.randint(1, 3)
+        P = [(L[i] if i < nl and rng.random() < 0.6 else rng.randrange(K)) for i in range(np_)]
+        if kind == "neg" and nl and np_:
+            tgt = L if rng.random() < 0.5 else P
+            tgt[rng.randrange(len(tgt))] = -rng.randint(1, K)
+        if kind == "beyond" and np_:
+            P[rng.randrange(np_)] = K + rng.randrange(2)
+        if kind == "offset":
+            L = [v + 1 for v in L]; P = [v + 1 for v in P]
+        cm = observe(G.confusion_matrix, L, P)
+        ac = observe(G.opf_accuracy, L, P)
+        pl = observe(G.opf_accuracy_per_label, L, P)
+        pu = observe(G.purity, L, P)
+        gl = f"gmeas {len(L)} {ints(L)} {len(P)} {ints(P)}".replace("  ", " ")
+        glines.append(gl)
+        gobs.append((None if cm is None else " , ".join(" ".join(str(int(v)) for v in row) for row in cm),
+                     None if ac is None else float(ac), None if pl is None else [float(v) for v in pl],
+                     None if pu is None else float(pu)))
+        gmetas.append({"labels": L, "preds": P, "kind": kind})
+        res.add_case(gl, nontrivial=(nl >= 2)); res.hit("gen_counting_" + kind)
+        if cm is None:
+            res.hit("gen_counting_raises")
+    gmodel = run_driver(glines, driver="DriverGen.lean", soft=True)
+    if gmodel is None:
+        res.disagreements.append({"stream": "measures", "case": 0, "kind": "gmeas", "segments": [0, 1, 2, 3], "input": "(all)",
+                                  "impl": "-", "model": "DriverGen.lean does not run: Gen/MeasImp.lean was not translated", "meta": {}})
+    else:
+        def dec(t):
+            return struct.unpack("<d", struct.pack("<Q", int(t)))[0]
+
+        def same(a, b):
+            return (a != a and b != b) or a == b or abs(a - b) <= 1e-12
+        for k, (l, a, b) in enumerate(zip(glines, gobs, gmodel)):
+            sb = b.split(" | ")
+            segs = []
+            if len(sb) != 4:
+                segs = [0, 1, 2, 3]
+            else:
+                if (a[0] if a[0] is not None else "ERR") != sb[0]:
+                    segs.append(0)
+                if (a[1] is None) != (sb[1] == "ERR") or (a[1] is not None and not same(a[1], dec(sb[1]))):
+                    segs.append(1)
+                if (a[2] is None) != (sb[2] == "ERR") or (a[2] is not None and (len(a[2]) != len(sb[2].split()) or
+                                                                               not all(same(x, dec(t)) for x, t in zip(a[2], sb[2].split())))):
+                    segs.append(2)
+                if (a[3] is None) != (sb[3] == "ERR") or (a[3] is not None and not same(a[3], dec(sb[3]))):
+                    segs.append(3)
+            if segs:
+                res.disagreements.append({"stream": "measures", "case": k, "kind": "gmeas", "segments": segs, "input": l,
+                                          "impl": str(a)[:300], "model": b[:300], "meta": gmetas[k]})
     # compare (normalize with tolerance: numpy's mean/std use pairwise summation)
     model = run_driver(lines)
     for k, (l, a, b) in enumerate(zip(lines, obs, model)):
